@@ -146,10 +146,18 @@ def _offsets(repo, col):
         col.check(a == ["self._cumsum_nbranches", "self._cumsum_nbranchpoints_per_cell"], R, nj,
                   f"merge_cells receives (branch offsets, branch-point offsets): {unparse(c.args[2])[:50]}", str(a),
                   f"merge_cells is called with {a}", node=c)
-    pc = next((n for n in walk_no_nested(nj.node) if isinstance(n, ast.Assign) and unparse(n.targets[0]) == "padded_cumsum_ncomp"), None)
-    want = "cumsum_leading_zero(np.concatenate([np.diff(cell._solve_indexer.cumsum_ncomp) for cell in self._cells_list]))"
-    col.check(pc is not None and unparse(pc.value) == want, R, nj, "padded widths are concatenated from the cells' own indexers", want,
-              f"padded_cumsum_ncomp is {unparse(pc.value) if pc else None}", node=pc or nj.node)
+    # padded widths: the cumulative widths handed to the indexer come from the cells' OWN solve indexers, in cell order
+    from sa.terms import nest, fuse_comprehensions
+    ic = next((c for c in exn.calls if isinstance(c.func, ast.Name) and c.func.id == "JaxleySolveIndexer"), None)
+    if ic is None:
+        raise AnalysisError("Network._init_morph_jaxley_spsolve no longer builds a JaxleySolveIndexer")
+    it = exn.term(ic)
+    cs = it.kw.get("cumsum_ncomp") or (it.args[0] if it.args else None)
+    cs = fuse_comprehensions(idx.inline(repo, nj, cs, keep=("cumsum_leading_zero",))) if cs is not None else None
+    ok = cs is not None and nest(cs, "cumsum_leading_zero", "concatenate", "diff", "cumsum_ncomp", "_solve_indexer", "each", "_cells_list")
+    col.check(ok, R, nj, "padded widths are concatenated from the cells' own indexers",
+              "cumsum_leading_zero(concatenate([diff(cell._solve_indexer.cumsum_ncomp) for cell in cells]))",
+              f"the indexer's cumsum_ncomp is {cs.short(140) if cs is not None else None}", node=ic)
     ri = next((k.value for c in exn.calls if isinstance(c.func, ast.Name) and c.func.id == "JaxleySolveIndexer" for k in c.keywords if k.arg == "root_inds"), None)
     col.check(ri is not None and unparse(ri) == "self._cumsum_nbranches[:-1]", R, nj, "roots of the network = first branch of every cell",
               "cumsum_nbranches[:-1]", f"root_inds is {unparse(ri) if ri is not None else None}", node=ri or nj.node)
